@@ -9,6 +9,7 @@ import (
 	"fmt"
 	"net"
 	"net/netip"
+	"os"
 	"sync"
 	"time"
 
@@ -21,6 +22,7 @@ import (
 	"github.com/semihalev/sdns/verifx/bridge"
 	"github.com/semihalev/sdns/verifx/verifnet"
 	"github.com/semihalev/sdns/verifx/verifos"
+	"github.com/semihalev/zlog/v2"
 
 	"verifsim/authsim"
 	"verifsim/kit"
@@ -280,6 +282,13 @@ func NewRes(spec *Spec, seed uint64, tr *kit.Trace) *Res {
 	rr := kit.NewRNG(kit.Hash64(seed, "randn"))
 	var rmu sync.Mutex
 	r.oldRand = bridge.SetAuthorityRandN(func(n int) int { rmu.Lock(); defer rmu.Unlock(); return rr.Intn(n) })
+	if os.Getenv("VERIF_SDNS_LOG") != "" {
+		// triage aid: sdns's own debug log on stdout (never set by a registered command)
+		l := zlog.NewStructured()
+		l.SetLevel(zlog.LevelDebug)
+		l.SetWriter(zlog.StdoutTerminal())
+		zlog.SetDefault(l)
+	}
 	defaults.Register()
 	// The resolver starts a goroutine that polls middleware.Ready() every 50 ms before it sends
 	// the priming query; whether its first look comes before or after Setup publishes the
